@@ -167,7 +167,7 @@ func isolatedRun(idx int) (*WorkerResult, string) {
 		}
 	}
 	cmd.Env = append(env, "VERIF_OUT="+out, fmt.Sprintf("VERIF_WORKER=%d", idx), "VERIF_NWORKERS=1", "VERIF_MAXRUNS=1", "VERIF_NO_MINIMISE=1", "VERIF_NO_FRESH_REPLAY=1")
-	b, _ := cmd.CombinedOutput()
+	b, _ := cmd.CombinedOutput() // (the child has its own per-run watchdog)
 	data, err := os.ReadFile(out)
 	if err != nil {
 		if len(b) > 3000 {
@@ -218,6 +218,10 @@ func mergeChild(acc *Acc, c *WorkerResult) {
 	if len(acc.Samples) < 3 {
 		acc.Samples = append(acc.Samples, c.Samples...)
 	}
+}
+
+func runWatchdog() time.Duration {
+	return time.Duration(envInt("VERIF_RUN_WATCHDOG_S", 180)) * time.Second
 }
 
 func envInt(k string, def int) int {
@@ -460,7 +464,16 @@ func Main(t *testing.T, units ...Unit) {
 		idx := worker + i*nworkers
 		runSeed := Mix(seed64, HashString(u.Name), uint64(idx))
 		r := newRun(NewTape(runSeed), runSeed, idx, false)
-		if err := execRun(u, r); err != nil {
+		// real-time watchdog: a run that does not come back (e.g. the code under test blocks on something a
+		// previous run of this process left behind, which the simulated clock cannot see) ends this process
+		// without a result; the driver then repeats this worker's runs one process per run.
+		hung := time.AfterFunc(runWatchdog(), func() {
+			fmt.Fprintf(os.Stderr, "WATCHDOG: run %d (seed %d) of unit %s did not return within %v of real time; ending this worker process\n", idx, runSeed, u.Name, runWatchdog())
+			os.Exit(3)
+		})
+		err := execRun(u, r)
+		hung.Stop()
+		if err != nil {
 			res.Error = fmt.Sprintf("run %d seed %d: %v", idx, runSeed, err)
 			break
 		}
